@@ -6,7 +6,9 @@ from concurrent.futures import ThreadPoolExecutor
 
 NIL = dict(op="nil", ch=[])
 def leaf(x): return dict(op=x, ch=[])
-def out(r, e=None, d=0): return dict(r=r, e=leaf(e) if e else NIL, d=d)
+def out(r, e=None, d=0): return dict(r=r, e=(e if isinstance(e, dict) else leaf(e)) if e else NIL, d=d)
+def W(x): return dict(op="W", ch=[x if isinstance(x, dict) else leaf(x)])                      # fmt.Errorf("%w", x)
+def J(x, y): return dict(op="J", ch=[x if isinstance(x, dict) else leaf(x), y if isinstance(y, dict) else leaf(y)])   # errors.Join(x, y)
 def cE(v): return dict(t="errors", v=v)
 def cR(v): return dict(t="result", v=v)
 def cIf(v): return dict(t="if", v=v)
@@ -19,7 +21,7 @@ BRT = dict(fthr=2, fcap=2, frate=0, fexec=2, period=20, sthr=0, scap=0, delay=3)
 BRR2 = dict(fthr=0, fcap=0, frate=50, fexec=2, period=20, sthr=0, scap=0, delay=1)   # 50 % of 2: a half-open window of 1 failure + 1 success is AT the threshold
 BRR = dict(fthr=0, fcap=0, frate=50, fexec=2, period=20, sthr=2, scap=3, delay=2)   # 50 % of >= 2 executions within 20 units; 2 of 3 trial successes close it
 
-def retry(max=2, h=(), a=(), rlf=False, dly=0, maxd=0): return dict(k="retry", max=max, h=TSet(h), a=TSet(a), rlf=rlf, dly=dly, maxd=maxd)
+def retry(max=2, h=(), a=(), rlf=False, dly=0, maxd=0, rdf=False): return dict(k="retry", max=max, h=TSet(h), a=TSet(a), rlf=rlf, dly=dly, maxd=maxd, rdf=rdf)
 def cb(id, cfg, h=(), dfn=-1): return dict(k="cb", id=id, cfg=cfg, h=TSet(h), dfn=dfn)
 def rl(id, m, per=0): return dict(k="rl", id=id, m=m, per=per)
 def bh(id, max, pre=0): return dict(k="bh", id=id, max=max, pre=pre)
@@ -43,6 +45,7 @@ CATALOG = {
     "rpTR":  retry(2, h=[cT("TP"), cR("R1")], a=[cT("TV")]),   # handled type + result, aborts on a type
     "rpU":   retry(-1, a=[cE("E2")]),                    # unlimited
     "rp3":   retry(3),
+    "rpDF":  retry(2, h=[cR("R1")], rdf=True),             # a delay function that reads LastError of the attempt that just failed (also retries on R1)
     "rpW":   retry(3, dly=2),                            # three retries two units apart
     "rpD":   retry(3, dly=2, maxd=3),                    # max duration 3 units with a 2 unit delay
     "rpUD":  retry(-1, dly=1, maxd=2),                   # unlimited retries bounded only by the max duration
@@ -88,6 +91,7 @@ CATALOG = {
 OUTS4 = [out("R0"), out("R1"), out("R0", "E1"), out("R0", "E2")]
 OUTS3 = [out("R1"), out("R0", "E1"), out("R0", "E2")]
 OUTS_TY = [out("R1"), out("R0", "E1"), out("R0", "TV"), out("R0", "TP"), out("R1", "E1")]     # typed errors next to a sentinel; a handled result WITH an unhandled error
+OUTS_WR = [out("R1"), out("R0", W(J("E3", "TP"))), out("R0", J("E1", W("TV"))), out("R0", W("E2"))]      # wrapped and joined shapes
 OKOUT = out("R2")
 
 
